@@ -167,6 +167,9 @@ func mutateField(t *rapid.T, m *model.Packet, name string) {
 		m.SubIDs = append(m.SubIDs, gen.SubID(t, "v"))
 	case "SetSubscriptionID":
 		m.SubID = int(gen.SubID(t, "v"))
+		if zero {
+			m.SubID = 0 // "setting a value back to zero": the accessor then reports 0, not "never set"
+		}
 	case "AddFilters":
 		m.Filters = append(m.Filters, model.Filter{Filter: gen.Topic(t, "v", o, false), Opts: rapid.Uint8().Draw(t, "opts")})
 	case "AddFilter":
@@ -285,6 +288,9 @@ func checkC12(c caseC12) (sig, msg string) {
 		want := expectAfterWire(last)
 		if want.Will == nil {
 			want.WillDelay = 0 // a will delay without a will is not transmitted
+		}
+		if want.SubID == 0 && got.SubID == -1 {
+			got.SubID = 0 // an absent property counts as the zero value
 		}
 		if d := model.Diff(got, want); d != "" {
 			return "final-frame:" + fieldOf(d), fmt.Sprintf("the frame written after the sequence does not reflect the final state (frame vs model): %s\nframe %s", d, hx(frame))
